@@ -367,6 +367,7 @@ func vfRunWindowPuppet(t *testing.T, spec *vfSpec, res *vfRes) {
 		base := uint32(spec.x("ptsn", 1000)) //nolint:gosec
 		nPackets := int(spec.x("packets", 400))
 		aborted := false
+		storedPerSID := map[uint16]int{} // never-completing entries the target actually stored, per stream
 		maxChunk := 1200
 		lastSackSeq := sim.net.seq.Load()
 		for i := 0; i < nPackets && !aborted; i++ {
@@ -427,6 +428,9 @@ func vfRunWindowPuppet(t *testing.T, spec *vfSpec, res *vfRes) {
 				res.violate("C11", "puppet/beyond-window-stored", "a chunk with TSN %d is held although the cumulative point is %d and the tracking window %d", maxT, cumNow, win)
 			}
 			stored := held > heldBefore
+			if stored {
+				storedPerSID[sid]++
+			}
 			if creditBefore == 0 && stored {
 				// only gap fillers below the highest TSN already received may be stored at zero window
 				if !haveBefore || !sna32LT(tsn, maxBefore) {
@@ -479,8 +483,15 @@ func vfRunWindowPuppet(t *testing.T, spec *vfSpec, res *vfRes) {
 		if limit > 0 && (mode == "mids" || mode == "unordered-mids" || mode == "fill") {
 			res.count("c11_limit_cases", 1)
 			// if the window closed first, later chunks were dropped before they could reach the entry limit
-			if !aborted && !res.has("zero-window") {
-				res.violate("C11", "puppet/no-abort-at-limit", "reassembly entry limit %d configured, %d never-completing chunks were accepted without an ABORT", limit, nPackets)
+			// the limit is per stream and counts entries that were stored (duplicates and gap fillers are not)
+			most := 0
+			for _, n := range storedPerSID {
+				if n > most {
+					most = n
+				}
+			}
+			if !aborted && !res.has("zero-window") && most > int(limit) {
+				res.violate("C11", "puppet/no-abort-at-limit", "reassembly entry limit %d configured, one stream stored %d never-completing entries (of %d packets) without an ABORT", limit, most, nPackets)
 			}
 		} else if aborted && limit == 0 {
 			res.violate("C11", "puppet/abort-without-limit", "association aborted although no reassembly limit is configured (mode %s)", mode)
